@@ -138,9 +138,10 @@ func newAsyncConn(c net.Conn) *asyncConn {
 			if _, err := c.Write(b); err != nil {
 				for range a.q {
 				}
-				return
+				break
 			}
 		}
+		c.Close() // the client has closed: what was queued is out, now the connection goes
 	}()
 	return a
 }
